@@ -152,9 +152,9 @@ def run_history(h, ns, g=None, d=None, threaded=False):
                     obj = obj[step] if isinstance(step, int) else getattr(obj, step)
                 obj.append(build(op[3], ns))
             elif op[0] == 'pack':
+                fields_before = json.dumps(canon(live[op[1]]), sort_keys=True)      # what the packet holds BEFORE it is ever serialized
                 first = live[op[1]].pack()
                 PACKED.append(first.hex())
-                fields_before = json.dumps(canon(live[op[1]]), sort_keys=True)
                 second = live[op[1]].pack()
                 if first != second or json.dumps(canon(live[op[1]]), sort_keys=True) != fields_before:
                     report.append(dict(step=k, op=op, kind='pack-impure', first=first.hex(), second=second.hex()))
